@@ -115,10 +115,11 @@ type frame struct {
 	visits map[*ssa.BasicBlock]int
 	bind   []*Term
 	depth  int
+	defers []ssa.CallInstruction // deferred calls of this activation, in order of execution of the defer statements
 }
 
 func (f *frame) clone() *frame {
-	c := &frame{fn: f.fn, bind: f.bind, depth: f.depth}
+	c := &frame{fn: f.fn, bind: f.bind, depth: f.depth, defers: append([]ssa.CallInstruction(nil), f.defers...)}
 	c.env = make(map[ssa.Value]*Term, len(f.env))
 	for k, v := range f.env {
 		c.env[k] = v
@@ -416,8 +417,32 @@ func (it *Interp) instrs(fr *frame, b *ssa.BasicBlock, i int, st *State, k cont)
 			return
 		case *ssa.Go:
 			st.Events = append(st.Events, Event{Kind: "go", Pos: it.P.InstrPos(in)})
-		case *ssa.Defer, *ssa.RunDefers:
-			st.Problems = append(st.Problems, fmt.Sprintf("unmodelled instruction %T at %s", in, it.P.InstrPos(in)))
+		case *ssa.Defer:
+			// arguments are evaluated now, the call runs at the function's RunDefers
+			for _, a := range x.Call.Args {
+				fr.env[a] = it.val(fr, a, st)
+			}
+			if v := x.Call.Value; v != nil {
+				fr.env[v] = it.val(fr, v, st)
+			}
+			fr.defers = append(fr.defers, x)
+		case *ssa.RunDefers:
+			next := i + 1
+			pending := append([]ssa.CallInstruction(nil), fr.defers...)
+			fr.defers = nil
+			var run func(fr2 *frame, st2 *State, rest []ssa.CallInstruction)
+			run = func(fr2 *frame, st2 *State, rest []ssa.CallInstruction) {
+				if len(rest) == 0 {
+					it.instrs(fr2, b, next, st2, k)
+					return
+				}
+				d := rest[len(rest)-1]
+				it.doCall(fr2, d, st2, func(st3 *State, _ []*Term) {
+					run(fr2.clone(), st3, rest[:len(rest)-1])
+				})
+			}
+			run(fr, st, pending)
+			return
 		case *ssa.DebugRef:
 		case *ssa.Store:
 			it.store(it.val(fr, x.Addr, st), it.val(fr, x.Val, st), st)
@@ -575,7 +600,7 @@ func (it *Interp) eval(fr *frame, v ssa.Value, st *State) *Term {
 
 // ---- calls ----
 
-func (it *Interp) doCall(fr *frame, c *ssa.Call, st *State, k cont) {
+func (it *Interp) doCall(fr *frame, c ssa.CallInstruction, st *State, k cont) {
 	cc := c.Common()
 	pos := it.P.InstrPos(c)
 	var args []*Term
@@ -618,6 +643,13 @@ func (it *Interp) doCall(fr *frame, c *ssa.Call, st *State, k cont) {
 		k(st, []*Term{&Term{Op: "icall", K: fmt.Sprintf("%s#%d", cc.Method.Name(), st.nCall), Args: append([]*Term{recv}, args...)}})
 		return
 	}
+	if !cc.IsInvoke() && cc.Value != nil {
+		// immediately invoked / deferred function literal: call it with its captured cells
+		if fv, isClosure := fr.env[cc.Value]; isClosure && fv.Op == "closure" && fv.Bind != nil {
+			it.call(fv.Fn.(*ssa.Function), args, fv.Bind, st, fr.depth+1, k)
+			return
+		}
+	}
 	if cal := core.Callee(c); cal != nil {
 		if name, ok := it.Opaque[cal]; ok {
 			st.nCall++
@@ -640,14 +672,10 @@ func (it *Interp) doCall(fr *frame, c *ssa.Call, st *State, k cont) {
 		st.nCall++
 		n := st.nCall
 		st.Events = append(st.Events, Event{Kind: "usercall", N: n, InOp: st.curOp, InRange: st.curRng, Name: fv.K, Args: args, Pos: pos})
-		res := c.Type()
 		var rets []*Term
-		if tup, ok := res.(*types.Tuple); ok {
-			for i := 0; i < tup.Len(); i++ {
-				rets = append(rets, Leaf("uret", fmt.Sprintf("%s#%d.%d", fv.K, n, i)))
-			}
-		} else {
-			rets = []*Term{Leaf("uret", fmt.Sprintf("%s#%d.0", fv.K, n))}
+		nres := cc.Signature().Results().Len()
+		for i := 0; i < nres; i++ {
+			rets = append(rets, Leaf("uret", fmt.Sprintf("%s#%d.%d", fv.K, n, i)))
 		}
 		k(st, rets)
 	case fv.Op == "aload":
@@ -715,7 +743,7 @@ func (it *Interp) external(cal *ssa.Function, args []*Term, st *State, pos strin
 
 // mapOp interprets an operation of the underlying map by its contract (checked against the
 // compute core by C11.L1 on the same run).
-func (it *Interp) mapOp(fr *frame, c *ssa.Call, meth string, args []*Term, st *State, k cont) {
+func (it *Interp) mapOp(fr *frame, c ssa.CallInstruction, meth string, args []*Term, st *State, k cont) {
 	pos := it.P.InstrPos(c)
 	st.nOp++
 	n := st.nOp
